@@ -402,6 +402,14 @@ def clip_cases(draw, for_get_stats=False):
                 "outliers": [], "nsig": draw(st.sampled_from([1, 1.0, 0.75, 1.25, 1.5, 0.5, 2.0])),
                 "niter": draw(st.integers(2, 10)), "wmode": "none", "get_err": draw(st.booleans()),
                 "get_indices": draw(st.booleans()), "defaults": False, "clumps": True}
+    if draw(st.integers(0, 5)) == 0:
+        # data picked (from clump-like candidates expanded from a seed) so that "discard from the current subset"
+        # and "re-select from all the data in every iteration" end with different survivors -- judged, as always,
+        # against the first, which is what the statement says
+        return {"n": 0, "reentry": draw(st.integers(0, 2 ** 32 - 1)), "center": 0.0, "sigma": 1.0, "quant": 0,
+                "outliers": [], "nsig": draw(st.sampled_from([1, 1.0, 0.75, 1.25, 1.5, 2.0])),
+                "niter": draw(st.integers(2, 10)), "wmode": "none", "get_err": draw(st.booleans()),
+                "get_indices": draw(st.booleans()), "defaults": False, "clumps": True}
     if n <= 30 and draw(st.booleans()):
         case["z"] = draw(st.lists(st.floats(-3.0, 3.0), min_size=n, max_size=n))
     else:
@@ -432,8 +440,56 @@ def clip_cases(draw, for_get_stats=False):
     return case
 
 
+_REENTRY_CACHE = {}
+
+
+def _alt_clip(x, nsig, niter):
+    """Survivors under the OTHER reading (every iteration re-selects from all the data); None if a point sits
+    within rounding of a threshold.  Used only to pick inputs on which the two readings differ."""
+    idx = np.arange(x.size)
+    m, e, s = _subset_stats(x, None)
+    xl = x.astype(LD)
+    for _ in range(niter):
+        dev = np.abs(xl - m)
+        thr = LD(nsig) * s
+        if np.any(np.abs(dev - thr) <= LD(1e-9) * s + LD(1e-11) * np.abs(xl).max()):
+            return None
+        new = np.nonzero(dev < thr)[0]
+        if new.size == 0 or (new.size == idx.size and np.array_equal(new, idx)):
+            break
+        idx = new
+        m, e, s = _subset_stats(x[idx], None)
+    return idx
+
+
+def _reentry_data(seed, nsig, niter):
+    key = (seed, float(nsig), niter)
+    if key in _REENTRY_CACHE:
+        return _REENTRY_CACHE[key]
+    rng = np.random.Generator(np.random.PCG64(seed))
+    x = np.array([0.0, 1.0, 5.0])
+    for _ in range(300):
+        vals = []
+        for c in rng.integers(-20, 21, size=int(rng.integers(2, 4))).tolist():
+            vals += [float(c + j) for j in rng.integers(-1, 2, size=int(rng.integers(1, 5))).tolist()]
+        vals += [float(v) for v in rng.integers(-40, 41, size=int(rng.integers(0, 4))).tolist()]
+        x = np.array(vals, dtype="f8")[rng.permutation(len(vals))]
+        ref, decidable, _ = _ref_clip(x, None, nsig, niter)
+        if not decidable:
+            continue
+        alt = _alt_clip(x, nsig, niter)
+        if alt is not None and set(alt.tolist()) != set(ref.tolist()):
+            break
+    if len(_REENTRY_CACHE) > 2000:
+        _REENTRY_CACHE.clear()
+    _REENTRY_CACHE[key] = x
+    return x
+
+
 def _clip_arrays(case):
     n = case["n"]
+    if "reentry" in case:
+        return _reentry_data(case["reentry"], case["nsig"], case["niter"]).copy(), None
     if "exact" in case:
         return np.array(dec(case["exact"]), dtype="f8"), None
     if "z" in case:
@@ -605,7 +661,7 @@ def classify_clip(case):
     nsig, niter = (4, 4) if case["defaults"] else (case["nsig"], case["niter"])
     ref, decidable, removing = _ref_clip(x, w, nsig, niter)
     labs = ["weights:" + case["wmode"], "outliers:%d" % len(case["outliers"]),
-            "family:" + ("clumps" if case.get("clumps") else "exact-threshold" if "exact" in case else
+            "family:" + ("readings-differ" if "reentry" in case else "clumps" if case.get("clumps") else "exact-threshold" if "exact" in case else
                          "explicit" if "z" in case else "seeded"),
             "niter:%s" % ("0" if niter == 0 else "1" if niter == 1 else "2+"),
             "removing-iterations:%s" % min(removing, 3), "decidable:%s" % decidable,
